@@ -210,6 +210,32 @@ Proof.
 Qed.
 Lemma Forall2_sbp_map (f : prov -> prov) l : (forall q, same_but_provides q (f q)) -> Forall2 same_but_provides l (map f l).
 Proof. intro Hf. induction l; simpl; constructor; auto. Qed.
+(* where the interfaces go: the first provider function one of whose result groups holds the struct type; that group (every
+   group holding the type) gains them, nothing before or behind that provider changes *)
+Lemma give_spec t ex : forall l l', give t ex l = Some l' ->
+  exists k p, nth_error l k = Some p /\ isstruct p = false /\ existsb (has_type t) (provides p) = true /\
+              (forall j q, j < k -> nth_error l j = Some q -> isstruct q = true \/ existsb (has_type t) (provides q) = false) /\
+              nth_error l' k = Some (add_to_group t ex p) /\ (forall j, j <> k -> nth_error l' j = nth_error l j).
+Proof.
+  induction l as [|p r IH]; intros l' H; simpl in H; [discriminate|].
+  destruct (negb (isstruct p) && existsb (has_type t) (provides p)) eqn:C.
+  - injection H as <-. apply andb_prop in C. destruct C as (C1 & C2). apply negb_true_iff in C1.
+    exists 0, p. repeat split; auto.
+    + intros j q Hj. lia.
+    + intros j Hj. destruct j; [congruence|reflexivity].
+  - destruct (give t ex r) as [r'|] eqn:G; [|discriminate]. injection H as <-.
+    destruct (IH r' eq_refl) as (k & q & Hk & Hs & He & Hbefore & Hat & Hother).
+    exists (S k), q. repeat split; auto.
+    + intros j q0 Hj Hq. destruct j as [|j]; simpl in Hq.
+      * injection Hq as <-. apply andb_false_iff in C. destruct C as [C|C]; [left; apply negb_false_iff; exact C|right; exact C].
+      * apply (Hbefore j q0); [lia|exact Hq].
+    + intros j Hj. destruct j as [|j]; simpl; [reflexivity|]. apply Hother. lia.
+Qed.
+Lemma add_to_group_spec t ex p g : In g (provides p) -> has_type t g = true -> In (g ++ ex)%list (provides (add_to_group t ex p)).
+Proof.
+  intros Hin Ht. unfold add_to_group. simpl. apply in_map_iff. exists g. rewrite Ht. split; auto.
+Qed.
+
 Theorem attach_shape : forall todo l, Forall2 same_but_provides l (attach todo l).
 Proof.
   induction todo as [|s r IH]; intro l; simpl; [apply Forall2_sbp_refl|].
